@@ -18,6 +18,11 @@ CONDS = [("star",), ("name", "c"), ("name", "cpp"), ("name", "js"), ("name", "da
          ("not", ("supports", "option")), ("all", [("not", ("name", "kotlin")), ("not", ("name", "nanobind"))])]
 
 
+def ar(rng):
+    """either spelling of the attribute: `abi_rename = "pat"` or the call form `abi_rename("pat")`"""
+    return '#[diplomat::abi_rename("%s")]' if rng.random() < 0.3 else '#[diplomat::abi_rename = "%s"]'
+
+
 def apply_pat(pat, name):
     if pat is None:
         return name
@@ -41,17 +46,17 @@ def decorate(prog, rng, idx):
         mod.abi_pat = None
         if bits & 1:
             mod.abi_pat = rng.choice(["vf_{0}", "{0}_v2", "lib_{0}_x"])
-            mod.attrs.append('#[diplomat::abi_rename = "%s"]' % mod.abi_pat)
+            mod.attrs.append(ar(rng) % mod.abi_pat)
         for t in mod.items:
             t.abi_pat = t.impl_pat = None
             t.impl_disable = None
             if bits & 2 and rng.random() < 0.7:
                 # a full replacement is only sensible where it names one symbol: the destructor of an opaque
                 t.abi_pat = rng.choice(["ty_{0}", "{0}T", "{0}"] + (["%s_free" % t.name.lower()] if t.kind == "opaque" else []))
-                t.attrs.append('#[diplomat::abi_rename = "%s"]' % t.abi_pat)
+                t.attrs.append(ar(rng) % t.abi_pat)
             if bits & 4 and t.methods and rng.random() < 0.7:
                 t.impl_pat = rng.choice(["impl_{0}", "{0}_i", "{0}"])        # a bare "{0}" cancels an outer pattern
-                t.impl_attrs = getattr(t, "impl_attrs", []) + ['#[diplomat::abi_rename = "%s"]' % t.impl_pat]
+                t.impl_attrs = getattr(t, "impl_attrs", []) + [ar(rng) % t.impl_pat]
             if t.methods and rng.random() < 0.2:
                 t.impl_disable = rng.choice(CONDS)
                 t.impl_attrs = getattr(t, "impl_attrs", []) + ['#[diplomat::attr(%s, disable)]' % fstr(t.impl_disable)]
@@ -66,7 +71,7 @@ def decorate(prog, rng, idx):
                         # a full replacement that happens to be a word some target language reserves (an ordinary identifier for rustc and the
                         # linker): the link symbol is not an identifier the backend may "escape" (seed C06-h)
                         m.abi_pat = KEYWORDISH.pop(rng.randrange(len(KEYWORDISH)))
-                    m.attrs.append('#[diplomat::abi_rename = "%s"]' % m.abi_pat)
+                    m.attrs.append(ar(rng) % m.abi_pat)
                     n += 1
                 if m.name != "make" and t.impl_disable is None and rng.random() < 0.2:
                     m.disable = rng.choice(CONDS)
